@@ -50,6 +50,9 @@ func HistogramQuantile(hist Histogram, q float64) float64 {
 	if goal <= under || goal > total-over {
 		return math.NaN()
 	}
+	// The samples below the lowest bin are the smallest ones; the
+	// walk over the bins counts from the first bin.
+	goal -= under
 	for bin, count := range counts {
 		if count > goal {
 			return hist.BinToValue(float64(bin) + float64(goal)/float64(count))
